@@ -199,6 +199,20 @@ func (bc *boundsCtx) atLeast(s *Symer, lits []Lit, x ssa.Value, n int64, depth i
 			return true
 		}
 	case *ssa.Slice:
+		// x[lo:hi] with symbolic bounds has hi - lo elements: lo + n <= hi from the
+		// tested facts (loop condition offset < ActualLen gives at least one byte)
+		if y.High != nil && y.Max == nil {
+			if _, isK := foldInt(y.High); !isK {
+				lof := linForm{ok: true}
+				if y.Low != nil {
+					lof = bc.linear(s, y.Low, nil, 2)
+				}
+				lof.k += n
+				if bc.leqWithFacts(s, lits, lof, bc.linear(s, y.High, nil, 2)) {
+					return true
+				}
+			}
+		}
 		lo := int64(0)
 		if y.Low != nil {
 			k, ok := foldInt(y.Low)
@@ -578,7 +592,10 @@ func (bc *boundsCtx) linear(s *Symer, v ssa.Value, subst func(string) string, de
 		if subst != nil {
 			sym = subst(sym)
 		}
-		if strings.Contains(sym, "…") || strings.HasPrefix(sym, "phi(") || sym == "" {
+		if phi, isPhi := x.(*ssa.Phi); isPhi && subst == nil {
+			// a loop variable is an opaque term, identified by the SSA value itself
+			sym = "φ:" + phi.Name()
+		} else if strings.Contains(sym, "…") || strings.HasPrefix(sym, "phi(") || sym == "" {
 			f.ok = false
 		}
 		if sign > 0 {
@@ -628,8 +645,13 @@ func isArithmetic(v ssa.Value) bool {
 
 // nonNegTerm: the value cannot be negative.
 func nonNegTerm(v ssa.Value, depth int) bool {
-	if k, ok := foldInt(v); ok {
-		return k >= 0
+	if depth < 0 {
+		return false
+	}
+	if _, isPhi := v.(*ssa.Phi); !isPhi {
+		if k, ok := foldInt(v); ok {
+			return k >= 0
+		}
 	}
 	if lenArg(v) != nil {
 		return true
@@ -713,6 +735,51 @@ func linLeq(a, b linForm) bool {
 	return true
 }
 
+// linFacts: the tested comparisons as non-negative linear forms:
+// A < B gives B - A - 1 >= 0, !(A < B) gives A - B >= 0.
+func (bc *boundsCtx) linFacts(s *Symer, lits []Lit) []linForm {
+	var facts []linForm
+	sub := func(a, b linForm, k int64) linForm {
+		// a - b + k
+		f := linForm{k: a.k - b.k + k, ok: a.ok && b.ok}
+		f.pos = append(append([]linTerm{}, a.pos...), b.neg...)
+		f.neg = append(append([]linTerm{}, a.neg...), b.pos...)
+		return f
+	}
+	for _, l := range lits {
+		if l.Kind != "lt" || l.X == nil || l.Y == nil {
+			continue
+		}
+		a, b := bc.linear(s, l.X, nil, 2), bc.linear(s, l.Y, nil, 2)
+		if l.Pos {
+			facts = append(facts, sub(b, a, -1))
+		} else {
+			facts = append(facts, sub(a, b, 0))
+		}
+	}
+	return facts
+}
+
+// leqFacts: a <= b, directly or after adding one tested non-negative form to a.
+func leqFacts(facts []linForm, a, b linForm) bool {
+	if linLeq(a, b) {
+		return true
+	}
+	for _, f := range facts {
+		af := linForm{k: a.k + f.k, ok: a.ok && f.ok}
+		af.pos = append(append([]linTerm{}, a.pos...), f.pos...)
+		af.neg = append(append([]linTerm{}, a.neg...), f.neg...)
+		if linLeq(af, b) {
+			return true
+		}
+	}
+	return false
+}
+
+func (bc *boundsCtx) leqWithFacts(s *Symer, lits []Lit, a, b linForm) bool {
+	return leqFacts(bc.linFacts(s, lits), a, b)
+}
+
 func (bc *boundsCtx) linearWithin(s *Symer, lits []Lit, x *ssa.Slice) bool {
 	if x.Max != nil {
 		return false
@@ -725,39 +792,8 @@ func (bc *boundsCtx) linearWithin(s *Symer, lits []Lit, x *ssa.Slice) bool {
 	if x.Low != nil {
 		lo = bc.linear(s, x.Low, nil, 2)
 	}
-	// tested facts of the form X >= K: X - K is non-negative
-	var facts []linForm
-	for _, l := range lits {
-		if l.Kind != "lt" {
-			continue
-		}
-		if !l.Pos {
-			if k, ok := foldInt(l.Y); ok && lenArg(l.X) == nil {
-				f := bc.linear(s, l.X, nil, 2)
-				f.k -= k
-				facts = append(facts, f)
-			}
-		} else if k, ok := foldInt(l.X); ok && lenArg(l.Y) == nil {
-			f := bc.linear(s, l.Y, nil, 2)
-			f.k -= k + 1
-			facts = append(facts, f)
-		}
-	}
-	leq := func(a, b linForm) bool {
-		if linLeq(a, b) {
-			return true
-		}
-		for _, f := range facts {
-			// a + f <= b with f >= 0 implies a <= b
-			af := linForm{k: a.k + f.k, ok: a.ok && f.ok}
-			af.pos = append(append([]linTerm{}, a.pos...), f.pos...)
-			af.neg = append(append([]linTerm{}, a.neg...), f.neg...)
-			if linLeq(af, b) {
-				return true
-			}
-		}
-		return false
-	}
+	facts := bc.linFacts(s, lits)
+	leq := func(a, b linForm) bool { return leqFacts(facts, a, b) }
 	if !leq(zero, lo) {
 		return false
 	}
